@@ -5,6 +5,7 @@ package env
 import (
 	"fmt"
 	"sort"
+	"strings"
 	"unsafe"
 
 	"github.com/at-wat/mqtt-go/internal/verif/vrt"
@@ -29,6 +30,48 @@ type FaultSet struct {
 	StallTypes map[byte]bool
 	// OnlyTypes restricts faults to these packet types (nil = every client->broker packet).
 	OnlyTypes map[byte]bool
+}
+
+// String lists the enabled fault kinds.
+func (f FaultSet) String() string {
+	var on []string
+	add := func(b bool, n string) {
+		if b {
+			on = append(on, n)
+		}
+	}
+	add(f.LostClose, "request-lost+close")
+	add(f.WriteErr, "write-error")
+	add(f.AckLost, "ack-lost+close")
+	add(f.Silent, "processed-silently")
+	add(f.SilentDrop, "dropped-silently")
+	add(f.ConnRefuse, "connack-refused")
+	add(f.NoConnAck, "no-connack")
+	add(f.DialErr, "dial-error")
+	add(f.DupAck, "responses-duplicated")
+	add(f.GoSilent, "silent-from-here")
+	add(f.WriteErrTransient, "write-error-link-stays-up")
+	add(f.Stall, "peer-stops-reading")
+	s := "{" + strings.Join(on, ", ")
+	if f.OnlyTypes != nil {
+		var ts []string
+		for t := byte(1); t < 15; t++ {
+			if f.OnlyTypes[t] {
+				ts = append(ts, TypeName(t))
+			}
+		}
+		s += "; only at " + strings.Join(ts, "/")
+	}
+	if f.Stall && f.StallTypes != nil {
+		var ts []string
+		for t := byte(1); t < 15; t++ {
+			if f.StallTypes[t] {
+				ts = append(ts, TypeName(t))
+			}
+		}
+		s += "; stops reading only at " + strings.Join(ts, "/")
+	}
+	return s + "}"
 }
 
 const (
